@@ -102,6 +102,44 @@ theorem logical_time_exact (prog : Nat → List Act) (tempi : Nat → Rat) (star
   have := hE.exact e he
   exact ⟨this, by unfold S.secsOf Spec.expectedSecs Spec.expectedBeats; rw [this]⟩
 
+theorem reach_traceExact {s₀ s : S} (h0 : Exact s₀) (ht : TraceExact s₀) (h : Reach s₀ s) :
+    TraceExact s := by
+  induction h with
+  | refl => exact ht
+  | nrt hr ih =>
+    unfold S.stepNrt
+    cases hc : _root_.Sc3Verif.C05.S.chooseNrt _ with
+    | none => exact ih
+    | some e => exact exec_traceExact ih (reach_exact h0 hr) (argmin_mem hc)
+  | rt now m hr ih =>
+    cases m with
+    | advance d => simp only [RtS.step]; split <;> exact ih
+    | run c =>
+      simp only [RtS.step]
+      cases hc : _root_.Sc3Verif.C05.S.chooseRt _ c with
+      | none => exact ih
+      | some e =>
+        simp only
+        split
+        · exact exec_traceExact ih (reach_exact h0 hr) (List.mem_filter.mp (argmin_mem hc)).1
+        · exact ih
+
+/-- `logical_time_exact`, as observed: in the trace of EVERY run of every plain program — NRT, or
+    RT under any environment schedule — every resumption event of every routine reads
+    `beats = (beats at which it was played) + (sum of the deltas of the yields before the position
+    it resumes at)`: for the k-th resumption, start + d₀ + … + d_{k-1}. -/
+theorem every_resumption_reads_start_plus_deltas (prog : Nat → List Act) (tempi : Nat → Rat)
+    (start : Rat) (c0 : Clk) (hp : PlainProg prog tempi) {s : S}
+    (h : Reach (S.init prog tempi start c0) s) (r pc : Nat) (c : Clk) (b t : Rat)
+    (hev : Ev.resume r pc c b t ∈ s.trace) :
+    b = Spec.expectedBeats (s.rts r).startBeats (s.rts r).script pc := by
+  have h0 := init_exact prog tempi start c0 hp
+  have ht0 : TraceExact (S.init prog tempi start c0) := by
+    refine ⟨h0.noPaused, ?_⟩
+    intro r pc c b t hev
+    simp [S.init, S.schedNow, S.add, S.setRt] at hev
+  exact ((reach_traceExact h0 ht0 h).hist r pc c b t hev).2
+
 /-- What the routine reads when that wake-up is delivered: `exec` logs a `resume` event carrying
     exactly the scheduled beat and its conversion — never the physical time. -/
 theorem resume_reads_scheduled_time (s : S) (e : Entry) (hs : (s.rts e.rid).state = .suspended) :
